@@ -34,6 +34,7 @@ var anteWellKnown = map[string]int{
 	"github.com/cosmos/cosmos-sdk/x/auth/vesting/types.MsgCreateVestingAccount":         7,
 	"github.com/cosmos/cosmos-sdk/x/auth/vesting/types.MsgCreatePeriodicVestingAccount": 8,
 	"github.com/cosmos/cosmos-sdk/x/auth/vesting/types.MsgCreatePermanentLockedAccount": 9,
+	"github.com/cosmos/ibc-go/v8/modules/core/02-client/types.MsgSubmitMisbehaviour":    10,
 }
 
 type anteTypes struct {
@@ -398,6 +399,10 @@ func genAnte(repo string) (string, []string, error) {
 		fmt.Fprintf(&b, "%q", o)
 	}
 	fmt.Fprintf(&b, "]\ndef rejectIndex : Nat := %d\n", rejectIdx)
+	// ---- routes of NewAnteHandler (ante_routes.go)
+	rsrc, rnotes := genAnteRoutes(repo)
+	b.WriteString("\n" + rsrc)
+	notes = append(notes, rnotes...)
 	b.WriteString("\nend DymVerif.Gen.Ante\n")
 	return b.String(), notes, nil
 }
